@@ -107,7 +107,7 @@ def case_route(acc, rname, w):
 
 HOSTS = ["h.com", "H.CoM", "h.com.", "xn--n3h.com", "XN--N3H.com", "www.Xn--Mnchen-3ya.de", "☃.com", "ABC.☃.com", "é.com", "É.COM", "straße.de", "a_b.com",
          "a!$&'()*+,;=b", "a%41b", "127.0.0.1", "127.000.0.1", "1.2.3", "999.1.1.1", "[::1]", "[0:0:0:0:0:0:0:1]",
-         "[2001:DB8::FF]", "[::ffff:1.2.3.4]", "[fe80::1%eth0]", "[fe80::1%25eth0]", "[fe80::1%Eth0]", "[v1.x]", "[vF.a:b]",
+         "[2001:DB8::FF]", "[::ffff:1.2.3.4]", "[fe80::1%eth0]", "[fe80::1%25eth0]", "[fe80::1%Eth0]", "[v1.x]", "[vF.a:b]", "[fe80::1%eth0.]", "[v1.fe:80.]",
          "-", "a-", "a..b", "localhost", "0", "1e3", "a~b"]
 PORTS = ["", ":", ":0", ":80", ":080", ":443", ":81", ":65535", ":00081"]
 SCHEMES = ["http", "https", "ws", "ftp", "x", "HTTP", "file", "a+b.c-d", ""]
